@@ -63,7 +63,12 @@ def build(inp, rng):
         theory = Mie()
     else:
         pr = prior.Uniform(0.3, 0.9) if inp["scat"] else prior.Uniform(-1.0, 1.0)
-        scat = Sphere(n=pn, r=pr, center=(1.5, 1.5, 5.0))
+        if inp.get("layered"):
+            # core radius free: invalid = the core radius negative while the shell's is positive
+            pr = prior.Uniform(0.1, 0.45) if inp["scat"] else prior.Uniform(-1.0, 1.0)
+            scat = Sphere(n=[pn, 1.45], r=[pr, 0.55], center=(1.5, 1.5, 5.0))
+        else:
+            scat = Sphere(n=pn, r=pr, center=(1.5, 1.5, 5.0))
         constraints = []
         theory = Mie()
     mnoise = {"none": None, "scalar": 0.07, "prior": prior.Uniform(0.01, 0.2)}[inp["mnoise"]]
@@ -85,8 +90,11 @@ def build(inp, rng):
             vals[name] = vn
         elif "center" in name:
             vals[name] = vx
-        elif name.endswith("r") or ":r" in name or name == "r":
-            vals[name] = 0.5 if inp["scat"] else -0.5
+        elif name.split(":")[-1].split(".")[0] == "r":
+            if inp.get("layered"):
+                vals[name] = 0.3 if inp["scat"] else -0.03
+            else:
+                vals[name] = 0.5 if inp["scat"] else -0.5
         elif "alpha" in name:
             vals[name] = 0.7
         elif "noise" in name:
@@ -107,6 +115,88 @@ def build(inp, rng):
     return model, vals, data, alpha
 
 
+def reuse_rounds(ctx, rng):
+    """Posterior_reuse.cfg: the same model evaluated twice, the second time with a fresh container or
+    with the first container changed in place; round 2 must be what a new model gives for those values."""
+    g = ctx.tlc_graph("Posterior", "Posterior_reuse.cfg")
+    again = [e for e in g.edges if e[1] == "Again"]
+    if not again:
+        raise harness.MachineryError("no Again edge in the reuse graph")
+
+    def final(sid):
+        cur = sid
+        while g.states[cur]["stage"] != "done":
+            cur = g.out[cur][0][3]
+        return cur
+
+    def values_for(model, inp, shift):
+        v = []
+        for name in model._parameter_names:
+            base = name.split(":")[-1].split(".")[0]
+            if base == "n":
+                v.append((1.52 if inp["sup"] else 1.9) + (0.01 * shift if inp["sup"] else 0.0))
+            elif base == "r":
+                good = (0.3 if inp["layered"] else 0.5) + 0.02 * shift
+                v.append(good if inp["scat"] else (-0.03 if inp["layered"] else -0.5))
+            elif base == "alpha":
+                v.append(0.7 + 0.03 * shift)
+            else:
+                raise harness.MachineryError("unexpected parameter %s" % name)
+        return v
+
+    def classify(fn):
+        try:
+            val = fn()
+        except Exception as e:
+            return "exception:" + type(e).__name__, None
+        return ("neginf" if val == -np.inf else ("finite" if np.isfinite(val) else "nan")), val
+
+    model_module.calc_holo = counting_calc_holo
+    try:
+        for e in again:
+            inp1 = g.states[e[0]]["inp"]
+            inp2 = g.states[e[3]]["inp"]
+            how = g.states[e[3]]["reuse"]
+            change = e[2][0]
+            want1 = g.states[e[0]]["result"]
+            fin2 = g.states[final(e[3])]
+            for container in (list, np.array):
+                ctx.case(("reuse", tuple(sorted(inp1.items())), change, how, container.__name__), nontrivial=how == "in_place")
+                # a model whose priors admit both rounds' values
+                model, _, data, _ = build(dict(inp1, scat=False, sup=True), rng)
+                v1 = values_for(model, inp1, 0)
+                v2 = values_for(model, inp2, 1 if change != "to_invalid" or True else 0)
+                p = container(v1)
+                COUNT["n"] = 0
+                c1, val1 = classify(lambda: model.lnposterior(p, data, None))
+                n1 = COUNT["n"]
+                if how == "in_place":
+                    for i, x in enumerate(v2):
+                        p[i] = x
+                    q = p
+                else:
+                    q = container(v2)
+                COUNT["n"] = 0
+                c2, val2 = classify(lambda: model.lnposterior(q, data, None))
+                n2 = COUNT["n"]
+                fresh_model, _, _, _ = build(dict(inp1, scat=False, sup=True), rng)
+                COUNT["n"] = 0
+                cf, valf = classify(lambda: fresh_model.lnposterior(container(v2), data, None))
+                key = "%s/%s/%s" % (change, how, "layered" if inp1["layered"] else "sphere")
+                if c1 != want1:
+                    ctx.violation("reuse/round1/%s_instead_of_%s" % (c1, want1), {"inp": inp1})
+                elif c2 != fin2["result"] or n2 != fin2["forwardCalls"]:
+                    ctx.violation("reuse/round2_class/" + key, {"inp1": inp1, "inp2": inp2, "impl": c2, "spec": fin2["result"],
+                                                                "forward_calls": n2, "spec_calls": fin2["forwardCalls"]})
+                elif c2 != cf or (c2 == "finite" and abs(val2 - valf) > 1e-9 * max(1.0, abs(valf))):
+                    ctx.violation("reuse/round2_differs_from_new_model/" + key,
+                                  {"inp1": inp1, "inp2": inp2, "impl": repr(val2), "new_model": repr(valf)})
+                else:
+                    ctx.trace_ok()
+    finally:
+        model_module.calc_holo = _orig_calc_holo
+
+
 def run(ctx):
     quick = ctx.tier == "quick"
     rng = random.Random(ctx.seed)
@@ -120,7 +210,7 @@ def run(ctx):
                        "Gaussian log-density oracle evaluated on the public calc_holo"]
     g = ctx.tlc_graph("Posterior", "Posterior.cfg", coverage=True)
     for a, n in ctx.actions_cov.items():
-        if n == 0:
+        if n == 0 and not a.endswith("Again"):           # Again needs Rounds = 2 (Posterior_reuse.cfg, below)
             raise harness.MachineryError("spec action %s never taken" % a)
     if not hasattr(model_module, "calc_holo"):
         raise harness.MachineryError("holopy.inference.model.calc_holo not found: cannot count forward calls")
@@ -134,7 +224,7 @@ def run(ctx):
             st = g.states[sid]
             inp = st["inp"]
             cur = sid
-            while g.out.get(cur):
+            while g.out.get(cur) and g.states[cur]["stage"] != "done":
                 cur = g.out[cur][0][3]
             fin = g.states[cur]
             want = fin["result"]
@@ -211,6 +301,7 @@ def run(ctx):
     finally:
         model_module.calc_holo = _orig_calc_holo
     ctx.notes["outcome_classes_replayed"] = classes
+    reuse_rounds(ctx, rng)
     ctx.sample({"inputs": dict(inp), "spec_final": {k: fin[k] for k in
                                                     ("result", "forwardCalls", "noiseFrom", "miFrom", "lnprior")}})
     # per-channel noise (two illumination channels): Gaussian density with channel-wise sigma
